@@ -541,6 +541,10 @@ class Repo:
                 return not v
         if isinstance(expr, ast.BinOp):
             a, b = f(expr.left), f(expr.right)
+            if isinstance(a, dict) and isinstance(b, dict) and isinstance(expr.op, ast.BitOr):
+                out = dict(a)
+                out.update(b)
+                return out
             if isinstance(a, (EnumVal, StructVal, DCVal)) or isinstance(b, (EnumVal, StructVal, DCVal)):
                 raise NotConst("arithmetic on a non-number")
             try:
@@ -657,6 +661,7 @@ class Repo:
             return frozenset(vals) if isinstance(expr, ast.SetComp) else vals
         if isinstance(expr, ast.Call):
             fn = dotted(expr.func) or ""
+            q = self.qual(module, expr.func) if dotted(expr.func) else None
             if isinstance(expr.func, ast.Attribute) and expr.func.attr in ("items", "keys", "values") and not expr.args:
                 try:
                     base = f(expr.func.value)
@@ -670,6 +675,19 @@ class Repo:
                     return {"list": list, "tuple": tuple, "dict": dict, "set": frozenset, "frozenset": frozenset, "sorted": sorted}[fn](items)
                 except Exception as ex:
                     raise NotConst(str(ex))
+            if fn.split(".")[-1] == "replace" and q in ("dataclasses.replace",) and len(expr.args) == 1:
+                base = f(expr.args[0])
+                if isinstance(base, DCVal):
+                    vals = dict(base.fields)
+                    for kw in expr.keywords:
+                        if kw.arg is None or kw.arg not in vals:
+                            raise NotConst("replace() of an unknown field")
+                        vals[kw.arg] = f(kw.value)
+                    return DCVal(base.cls, vals)
+            if fn == "dict.fromkeys" and 1 <= len(expr.args) <= 2:
+                keys = self._fold_iter(module, expr.args[0], env, _depth)
+                val = f(expr.args[1]) if len(expr.args) == 2 else None
+                return {k: val for k in keys}
             if fn == "range" and 1 <= len(expr.args) <= 3:
                 a = [f(x) for x in expr.args]
                 if all(isinstance(x, int) for x in a) and len(range(*a)) <= 4096:
